@@ -184,6 +184,16 @@ def run_c07(scn: Dict[str, Any], on, plugins=()) -> Dict[str, Any]:
         except Exception:
             pass
     runs["after_unrelated_run_and_variants"] = execute(scn)["digest"]
+    # (3b) the same configuration handed over as the path of a JSON file (one path, rewritten between runs: first a
+    # variant, then this scenario) and as a text stream: the outcome is a function of the configuration, whatever
+    # its form
+    for variant in variants_of(scn)[:1]:
+        try:
+            execute(dict(variant, settings_form="path"))
+        except Exception:
+            pass
+    runs["settings_from_file_path"] = execute(dict(scn, settings_form="path"))["digest"]
+    runs["settings_from_stream"] = execute(dict(scn, settings_form="stream"))["digest"]
     # (4) fresh interpreters under other hash seeds
     n_sub = int(scn.get("n_subprocess", 2))
     for hs in (envn.get("hash_seeds") or [0, 1])[:n_sub]:
